@@ -1,0 +1,142 @@
+//! Verification hooks, only compiled with `--cfg koto_verif`
+//!
+//! These hooks allow a deterministic simulator to own the clock that's used for execution limits,
+//! to observe each executed instruction, and to inspect the sizes of the VM's internal stacks.
+//! Nothing in here is compiled in a default build.
+
+use std::{
+    cell::{Cell, RefCell},
+    ops::{Add, Sub},
+    rc::Rc,
+    time::Duration,
+};
+
+/// The interface a simulator implements to own the VM's clock and instruction stream
+pub trait VerifSim {
+    /// Returns the current reading of the simulated clock in nanoseconds
+    fn now_ns(&self) -> u64;
+    /// Called before each instruction is executed, `depth` is the VM entry depth (1-based)
+    fn on_instruction(&self, depth: usize);
+    /// Called when `execute_instructions` is entered, `depth` is the new entry depth
+    fn on_entry(&self, depth: usize);
+    /// Called when `execute_instructions` is left, `depth` is the entry depth being left
+    fn on_exit(&self, depth: usize);
+}
+
+thread_local! {
+    static SIM: RefCell<Option<Rc<dyn VerifSim>>> = const { RefCell::new(None) };
+    static DEPTH: Cell<usize> = const { Cell::new(0) };
+}
+
+/// Installs (or removes) the simulator for the current thread
+pub fn install(sim: Option<Rc<dyn VerifSim>>) {
+    SIM.with(|s| *s.borrow_mut() = sim);
+    DEPTH.with(|d| d.set(0));
+}
+
+fn sim() -> Option<Rc<dyn VerifSim>> {
+    SIM.with(|s| s.borrow().clone())
+}
+
+/// The current VM entry depth on this thread
+pub fn entry_depth() -> usize {
+    DEPTH.with(|d| d.get())
+}
+
+/// Resets the entry depth (to be called after a panic unwound through the VM)
+pub fn reset_entry_depth() {
+    DEPTH.with(|d| d.set(0));
+}
+
+#[inline]
+pub(crate) fn on_instruction() {
+    if let Some(sim) = sim() {
+        sim.on_instruction(entry_depth());
+    }
+}
+
+pub(crate) struct EntryGuard {
+    depth: usize,
+}
+
+impl EntryGuard {
+    pub(crate) fn new() -> Self {
+        let depth = DEPTH.with(|d| {
+            let depth = d.get() + 1;
+            d.set(depth);
+            depth
+        });
+        if let Some(sim) = sim() {
+            sim.on_entry(depth);
+        }
+        Self { depth }
+    }
+}
+
+impl Drop for EntryGuard {
+    fn drop(&mut self) {
+        DEPTH.with(|d| d.set(self.depth - 1));
+        if !std::thread::panicking()
+            && let Some(sim) = sim()
+        {
+            sim.on_exit(self.depth);
+        }
+    }
+}
+
+/// A stand-in for `Instant` that reads the simulated clock
+#[derive(Clone, Copy, Debug, PartialEq, Eq, PartialOrd, Ord)]
+pub struct SimInstant(u64);
+
+impl SimInstant {
+    /// The current simulated time, or the real time since the first call when no simulator is
+    /// installed
+    pub fn now() -> Self {
+        match sim() {
+            Some(sim) => Self(sim.now_ns()),
+            None => {
+                thread_local! {
+                    static START: std::time::Instant = std::time::Instant::now();
+                }
+                Self(START.with(|s| s.elapsed().as_nanos() as u64))
+            }
+        }
+    }
+}
+
+impl Add<Duration> for SimInstant {
+    type Output = SimInstant;
+
+    fn add(self, rhs: Duration) -> SimInstant {
+        SimInstant(self.0.saturating_add(rhs.as_nanos().min(u64::MAX as u128) as u64))
+    }
+}
+
+impl Sub<SimInstant> for SimInstant {
+    type Output = Duration;
+
+    fn sub(self, rhs: SimInstant) -> Duration {
+        Duration::from_nanos(self.0.saturating_sub(rhs.0))
+    }
+}
+
+/// The sizes of the VM's internal stacks, see `KotoVm::verif_state`
+#[derive(Clone, Debug, Default, PartialEq, Eq)]
+pub struct VerifVmState {
+    /// The length of the register stack
+    pub registers: usize,
+    /// The length of the call stack
+    pub call_stack: usize,
+    /// The number of sequences that are under construction
+    pub sequence_builders: usize,
+    /// The number of strings that are under construction
+    pub string_builders: usize,
+    /// The current frame's register base
+    pub register_base: usize,
+    /// The minimum register count of the current frame
+    pub min_frame_registers: usize,
+    /// The number of 'import in progress' placeholders in the module cache
+    pub module_cache_placeholders: usize,
+    /// The number of completed entries in the module cache
+    pub module_cache_entries: usize,
+}
